@@ -65,8 +65,18 @@ C15(pre, e, post, acc, line) ==
 
 \* pause half of C14: while the (cached) pause is in force every financial instruction is refused
 C14Pause(pre, e, post, line) ==
-  (e.ev \in FinancialOps) =>
-    LET g == GroupOfAction(pre, e.a) IN
-    (g # "none" /\ Has(pre.groups, g) /\ InForce(pre.groups[g].panic_cache, post.clock.ts)) =>
-       Chk("C14", "refused_while_paused", line, ~Ok(e), [op |-> e.ev, group |-> g])
+  /\ (e.ev \in FinancialOps) =>
+       LET g == GroupOfAction(pre, e.a) IN
+       /\ (g # "none" /\ Has(pre.groups, g) /\ InForce(pre.groups[g].panic_cache, post.clock.ts)) =>
+            Chk("C14", "refused_while_paused", line, ~Ok(e), [op |-> e.ev, group |-> g])
+       \* ... and accepted again as soon as the pause has run out, whether or not anybody refreshed the group's copy
+       /\ (~Ok(e) /\ e.err = "ProtocolPaused") =>
+            Chk("C14", "not_refused_for_pause_once_it_ran_out", line,
+                g # "none" /\ Has(pre.groups, g) /\ InForce(pre.groups[g].panic_cache, post.clock.ts), [op |-> e.ev, group |-> g])
+  \* the pause "in force for a group" is the protocol-wide one: propagation hands the group an exact copy of it
+  /\ (e.ev = "propagate_fee" /\ Ok(e) /\ Has(e.a, "group") /\ Has(post.groups, e.a.group)) =>
+       Chk("C14", "group_receives_an_exact_copy_of_the_protocol_pause", line,
+           /\ post.groups[e.a.group].panic_cache.flags = post.fee.panic.flags
+           /\ post.groups[e.a.group].panic_cache.start = post.fee.panic.start,
+           [group |-> e.a.group, cache_start |-> post.groups[e.a.group].panic_cache.start, global_start |-> post.fee.panic.start])
 =============================================================================
